@@ -40,7 +40,7 @@ def module(ck, name, kinds=ALL_KINDS, invariants=("Inv_Reads", "Inv_Struct"), **
     os.makedirs(d, exist_ok=True)
     c = dict(NK=2, NV=NV_DEFAULT, MaxTime=3, MaxTtl=2, MaxOps=3, CacheMax=1, WorkerOn=True,
              Dev_ExpiredKeyResurrected=False, Dev_ReplayDropsPerRecord=False, Dev_CacheFillOutsideLock=False, NReaders=1,
-             Emit=False)
+             Dev_EvictJournalOutsideLock=False, Emit=False)
     c.update(const)
     with open(os.path.join(d, "MCKvMap.tla"), "w") as f:
         f.write("---- MODULE MCKvMap ----\nEXTENDS KvMap\nMCKinds == %s\n====\n" % vf.tla(set(kinds)))
@@ -116,6 +116,10 @@ def run(ck):
         mod, cfg = module(ck, "dev_" + tag, kinds=kinds, NV=nv, MaxOps=5, MaxTime=1, Dev_CacheFillOutsideLock=True,
                           invariants=["Inv_Reads"])
         jobs.append(("dev_" + tag, mod, cfg, dict(workers=1, dump_trace=os.path.join(ck.work, "cex_%s.json" % tag))))
+    # the eviction step split into "erase under the lock" and "journal the tombstone": the restart half of Inv_Reads must fail
+    mod, cfg = module(ck, "dev_evict", kinds=["set", "exp", "close"], NK=1, NV=1, MaxOps=4, MaxTime=0, MaxTtl=1,
+                      Dev_EvictJournalOutsideLock=True, invariants=["Inv_Reads"])
+    jobs.append(("dev_evict", mod, cfg, dict(workers=1, dump_trace=os.path.join(ck.work, "cex_evict.json"))))
     mod, cfg = module(ck, "gen3", MaxOps=3, MaxTime=3, WorkerOn=False, Emit=True, invariants=["EmitInv"])
     jobs.append(("gen3", mod, cfg, dict(workers=4, timeout=1500)))
     # restart / compaction focused: one key, one value, all 4-step histories (+ the open that follows a close)
@@ -176,6 +180,14 @@ def run(ck):
             raise vf.Infra("self-test: counterexample of %s has no GetRead .. GetFill window" % tag)
         conc_programs.append(prog)
         ck.sample({"kind": "concurrent program from the TLC counterexample of Dev_CacheFillOutsideLock (%s)" % tag, "program": prog})
+    r = res["dev_evict"]
+    if r.violated != "Inv_Reads":
+        raise vf.Infra("self-test: Impl with Dev_EvictJournalOutsideLock = TRUE must violate Inv_Reads, got %r" % (r.violated,))
+    evict_prog = cex_program_evict(r)
+    if not evict_prog:
+        raise vf.Infra("self-test: counterexample of Dev_EvictJournalOutsideLock has no WorkerEvictErase .. WorkerJournal window")
+    ck.sample({"kind": "concurrent program from the TLC counterexample of Dev_EvictJournalOutsideLock", "program": evict_prog})
+    conc_programs.append(evict_prog)
     # ------------------------------------------------------------------ 2. cases
     rng = ck.rng
     h3 = hist_lines(res["gen3"])
@@ -259,6 +271,28 @@ def cex_program(r):
     return "init=%s ; a=get:%d,get:%d ; b=%s" % (",".join(pre), k, k, ",".join(mid))
 
 
+def cex_program_evict(r):
+    """TLC counterexample of Dev_EvictJournalOutsideLock -> 'init=<up to the erase> ; b=<writers inside the window>'"""
+    if not r.trace_json:
+        return None
+    pre, mid, state = [], [], 0
+    for a in r.trace_json["counterexample"]["action"]:
+        name, c = a[1]["name"], a[1].get("context", {})
+        op = None
+        if name == "Set": op = "set:%d:%d" % (c["k"], c["v"])
+        elif name == "SetTtl": op = "setx:%d:%d" % (c["k"], c["v"])
+        elif name == "Remove": op = "rm:%d" % c["k"]
+        elif name == "ExpireAt": op = ("expp:%d" if c["t"] <= 0 else "expf:%d") % c["k"]
+        elif name == "Persist": op = "per:%d" % c["k"]
+        elif name == "WorkerEvictErase" and state == 0: state = 1
+        elif name == "WorkerJournal" and state == 1: state = 2
+        if op and state < 2:
+            (pre if state == 0 else mid).append(op)
+    if state != 2 or not pre or not mid:
+        return None
+    return "init=%s ; b=%s" % (",".join(pre), ",".join(mid))
+
+
 READ_OPS = ["get", "get", "get", "ex", "ttl", "getb", "keys", "size"]
 WRITE_OPS = ["set", "set", "setx", "rm", "expf", "expp", "per", "clear", "compact"]
 
@@ -276,6 +310,9 @@ def random_program(rng):
         o = rng.choice(READ_OPS)
         return o if o in ("getb", "keys", "size") else "%s:%d" % (o, rng.randint(1, 3))
     init = ["%s:%d:%d" % (rng.choice(["set", "set", "setx"]), k, rng.randint(1, 3)) for k in rng.sample([1, 2, 3], rng.randint(2, 3))]
+    if rng.random() < 0.3:
+        # a key that expires at once: the wheel fires at its next tick and the worker evicts it while the writers run
+        init.append("expp:%d" % int(init[rng.randrange(len(init))].split(":")[1]))
     threads = []
     shape = rng.choice(["rw", "rw", "rrw", "rww", "mix"])
     for i, name in enumerate("abc"[:len(shape) if shape != "mix" else 2]):
@@ -364,6 +401,8 @@ def conc_summary(lines, pos):
             continue
         if e["e"] == "Call":
             out.append("%s:%s(%s%s)" % (e["t"], e["op"], e["k"] or "", (",%d" % e["v"]) if e["v"] else ""))
+        elif e["e"] == "Reopen":
+            out.append("| CLOSE+REOPEN |")
         elif e["e"] == "Ret" and e["op"] in ("get", "ex", "ttl", "getb", "keys", "size"):
             out.append("%s:%s->%s" % (e["t"], e["op"], e["rvs"] if e["op"] in ("getb", "keys") else e["rv"]))
     return " ".join(out)[-700:]
@@ -384,9 +423,13 @@ def concurrent_part(ck, tlc_programs, thorough):
     nontriv = set()
     findings = []        # (case text, lines, pos)
     # ---- preemption-bounded DFS of the programs derived from the TLC counterexamples (+ eviction / compaction variants)
-    dfs_jobs = [(1, p, 2, 1500) for p in tlc_programs]
+    # programs whose init already runs the wheel (expp) need one unit per tick time-out (two ticks until a zero-delay timer
+    # fires) plus one for the preemption inside the worker's window: bound 3
+    dfs_jobs = [(1, p, 3 if "expp" in p.split(";")[0] else 2, 8000 if "expp" in p.split(";")[0] else 1500) for p in tlc_programs]
     if thorough:
         dfs_jobs = [(1, p, 3, 12000) for p in tlc_programs] + [(2, p, 2, 3000) for p in tlc_programs]
+        dfs_jobs += [(1, "init=set:1:1,set:2:1,expp:1 ; a=get:1,ex:1 ; b=set:1:2", 3, 20000),
+                     (1, "init=setx:1:1,expp:1 ; b=setx:1:2,per:1", 3, 20000)]
         dfs_jobs += [(1, "init=setx:1:1,set:2:1 ; a=get:1,ttl:1 ; b=expp:1,set:1:2", 2, 6000),
                      (1, "init=set:1:1,set:2:1 ; a=get:1,get:2 ; b=compact,rm:1", 2, 6000),
                      (1, "init=set:1:1,set:2:1 ; a=get:1 ; b=set:1:2 ; c=get:1,ex:1", 2, 8000)]
